@@ -36,10 +36,10 @@ func Exit(c int) Action    { return Action{Kind: "exit", Code: c} }
 
 // ProcScript describes how the commands of one configured process behave.
 type ProcScript struct {
-	Launches  [][]Action // script per launch index; the last one repeats; empty script = runs until killed
-	OnTerm    string     // reaction to a catchable signal: "" / "die" (default), "ignore", "exit:<code>"
-	StartFail []bool     // per launch index: exec fails
-	Children  int        // modelled descendants in the same process group (C06)
+	Launches  [][]Action                  // script per launch index; the last one repeats; empty script = runs until killed
+	OnTerm    string                      // reaction to a catchable signal: "" / "die" (default), "ignore", "exit:<code>"
+	StartFail []bool                      // per launch index: exec fails
+	Children  int                         // modelled descendants in the same process group (C06)
 	Hold      func(w *World, pc int) bool // when true the next script action (index pc) is not offered yet
 }
 
